@@ -996,7 +996,7 @@ func ckksEmbedScenario(cf ckksConf) engine.Scenario {
 // quick tier: the complete CKKS product (LogDimensions x level x NTT x input type x length x scale x value family,
 // every output type, plain and public decoding) up to this ring degree, the product without the scale axis one
 // degree above, the shape axes only beyond; thorough: the complete product at every ring degree.
-const fullProductLogN = 5
+const fullProductLogN = 4
 
 func ckksScenarios(tier string) []engine.Scenario {
 	var scs []engine.Scenario
